@@ -215,6 +215,27 @@ VERBOSE_OK = {"encode", "encode_fast", "decode", "bit_to_number", "to_lmap", "fr
               "valid_graph", "coding_graph", "scores", "capacity", "shuffles", "complete"}
 
 
+def scribble(x, shared):
+    """the caller owns what a call returned: overwrite it in place (unless it IS one of the shared arguments, as for the
+    documented in-place arc removal); a later call must not be affected"""
+    if any(x is o for o in shared.values()):
+        return
+    if isinstance(x, np.ndarray):
+        if x.flags.writeable and x.size:
+            x[...] = -7
+    elif isinstance(x, list):
+        for y in x:
+            scribble(y, shared)
+        if x and all(isinstance(y, (int, np.integer)) for y in x):
+            x[:] = [-7] * len(x)
+    elif isinstance(x, tuple):
+        for y in x:
+            scribble(y, shared)
+    elif isinstance(x, dict):
+        for key in list(x):
+            scribble(x[key], shared)
+
+
 def run_history(p, check_verbose=True):
     """returns (answers, model lines, problems)"""
     w = world(p["seed"], p["k"])
